@@ -26,7 +26,8 @@ Obs(s) == [ verifies    |-> [k \in Keys |-> s = k],
             signed_by   |-> IF s \in Keys THEN s ELSE "-",      \* reported key id (only claimed for Keys)
             digests_ok  |-> TRUE,
             header_same |-> TRUE,
-            payload_same |-> TRUE ]
+            payload_same |-> TRUE,
+            files_same  |-> TRUE ]       \* iterating the payload yields what the starting package yielded
 
 RECURSIVE Fold(_, _)
 Fold(s, h) == IF h = <<>> THEN s ELSE Fold(Apply(s, Head(h)), Tail(h))
